@@ -811,6 +811,22 @@ func genPrograms(prop, out, tier string, rng *rand.Rand) {
 				dtasks = append(dtasks, Task{en, "removed-and-recreated", prog})
 			}
 		}
+		if prop == "C14" {
+			// directed: DropRowRange by a prefix at the byte boundaries (ending in 0xff, all 0xff, equal to a
+			// whole key, followed by 0x00) on a table holding the keys around each of them: exactly the keys
+			// with the prefix go, in particular not the prefix's carried successor ("a\xff" vs "b")
+			keys := []string{"a", "a\x00", "a\xfe", "a\xff", "a\xff\x00", "a\xff\xff", "a\xffz", "b", "b\x00", "b\x00\x00", "c", "\xfe", "\xff", "\xff\x00", "\xff\xff", "\xff\xff\xff"}
+			rows := []Call{create}
+			for i, k := range keys {
+				rows = append(rows, set(k, "cf", "q", fmt.Sprint(i)))
+			}
+			for _, en := range engines() {
+				for _, pfx := range []string{"a\xff", "a\xff\xff", "\xff", "\xff\xff", "a", "b", "b\x00", "a\xfe", "\xfe", "c", "zz"} {
+					prog := append(append([]Call{}, rows...), Call{Req: Req{Kind: "drop", Table: t, HasPfx: true, Prefix: []byte(pfx)}, Now: 1000}, rd, get)
+					dtasks = append(dtasks, Task{en, "drop-prefix-boundaries", prog})
+				}
+			}
+		}
 		RunTasks(sink, dtasks, progNontrivial)
 	}
 	if prop == "C03" || prop == "C17" {
